@@ -7,7 +7,7 @@ from ..cobase import vars_in
 from ..coflow import TOP, Walker
 from ..pycfg import CFG, walk_no_nested
 from ..pyflow import Taint
-from ..source import AnalysisError, functions, qualname, first_line, enclosing_function, src
+from ..source import AnalysisError, functions, qualname, first_line, enclosing_function, src, find_function
 from . import _railrules
 
 GEN = "nemoguardrails/actions/llm/generation.py"
@@ -41,6 +41,7 @@ def run(ctx):
     ctx.floor("C02.c.reject-stop", "nemoguardrails/library", "rejection markers in output rails", nm, 30)
     d_v2(ctx)
     d_generated_action_gated(ctx)
+    e_streaming_supported_v2(ctx)
 
 
 def _create(s, name):
@@ -504,6 +505,25 @@ def find_fn(t, name):
 
 
 GEN2 = "nemoguardrails/actions/v2_x/generation.py"
+
+
+def e_streaming_supported_v2(ctx):
+    """The server and the chat CLI stream the raw LLM tokens to the client when `RailsConfig.streaming_supported` says so.  With output rails the tokens must not leave before
+    the rails have seen the whole message.  Colang 1.0 output rails are listed in rails.output.flows; in Colang 2.x they are the flow `output rails`, which the property must
+    look for as well - otherwise the client receives the text the rails reject (F149)."""
+    t = ctx.tree.ast(CFGPY)
+    fn = find_function(t, "streaming_supported", "RailsConfig")
+    if fn is None:
+        raise AnalysisError("RailsConfig.streaming_supported not found", anchor=CFGPY + "::RailsConfig.streaming_supported")
+    text = src(fn)
+    v1 = "rails.output.flows" in text
+    v2 = any(isinstance(c, ast.Constant) and c.value == "output rails" for c in ast.walk(fn))
+    falses = [r for r in ast.walk(fn) if isinstance(r, ast.Return) and isinstance(r.value, ast.Constant) and r.value.value is False]
+    ok = v1 and v2 and len(falses) >= 2
+    ctx.check("C02.e.streaming-supported", CFGPY, "RailsConfig.streaming_supported", "output rails of both Colang versions disable token streaming", ok,
+              "streaming is reported as unsupported when rails.output.flows is non-empty or (2.x) a flow `output rails` is defined" if ok else
+              "streaming_supported looks at %s only: a Colang 2.x configuration with an `output rails` flow is reported as streaming capable, the server streams the LLM tokens as "
+              "they arrive and the client has received the text by the time the output rails reject it" % ("rails.output.flows" if v1 else "nothing"), line=fn.lineno)
 
 
 def d_generated_action_gated(ctx):
